@@ -116,7 +116,12 @@ impl TxtppPath for PathBuf {
                 Report::new(PathError::from(self))
                     .attach_printable(format!("path does not have {TXTPP_EXT} extension"))
             })?;
-            p.set_extension(self_ext);
+            // append instead of `set_extension`, which would replace the last
+            // component of a stem that itself contains a dot (`a.b.txtpp.c` -> `a.b.c`)
+            let mut name = p.file_name().map(|n| n.to_os_string()).unwrap_or_default();
+            name.push(".");
+            name.push(self_ext);
+            p.set_file_name(name);
         }
 
         Ok(p)
